@@ -53,6 +53,8 @@ class C03(UtfCheck):
                         continue
                     for lo in range(0, 65536, 16384):
                         yield enum_case('bytes2', fn, 'ptr', mode, sub, lo, lo + 16384)
+                    if quick and (fn in ('utf8_to_wchar', 'utf8_to_latin_1') and not (sub == '0' and mode == 'cv')):
+                        continue
                     for lo in range(0, 65536, 16384):
                         yield enum_case('cb4', fn, 'ptr', mode, sub, lo, lo + 16384)
         for fn in ('str_to_utf16', 'str_to_utf32', 'str_to_latin_1'):
@@ -83,8 +85,11 @@ class C03(UtfCheck):
         block_routes = {'ptr', 'u8', 'view', 'ctor', 'ctorview', 'set', 'setview', 'u8view', 'u8ctor', 'u8set', 'u8ctorview', 'ptrmode'}
         for kind in ('8', '16', '32'):
             inputs = malformed_inputs(kind, rng, tier)
+            allf = FN_BY_SRC[kind]
             for i, u in enumerate(inputs):
-                for fn in FN_BY_SRC[kind]:
+                k = len(allf)
+                fns = allf if not quick else [allf[(i + j * 2) % k] for j in range(2 if k == 5 else 3)]
+                for fn in fns:
                     rts = [r for r in routes_for(fn) if r in block_routes]
                     route = 'ptr' if (i % 2) else rts[(i // 2) % len(rts)]
                     for mode in MODES:
